@@ -145,8 +145,12 @@ class CliWorld:
                     if form == "direct" and r.block and not r.rewrite and nested_ok:
                         spec["children"] = list(emit(r.children, ind + 1, True))
         self.deploy_specs = list(emit(self.rb.rules, 0, True))
+        seen_lits = set()
         for blk in hoisted:
-            self.deploy_specs.extend(emit([c for c in blk.children if not c.block], 0, False))
+            # (a command that exists inside several blocks gets one top-level rule, not two with the same text)
+            kids_ = [c for c in blk.children if not c.block and c.lit not in seen_lits]
+            seen_lits.update(c.lit for c in kids_)
+            self.deploy_specs.extend(emit(kids_, 0, False))
         # a rule for a wrapper word, to see fill_cmd_params at work
         self.wrapper_rule = None
         t = W.session_table(self.hw)
